@@ -311,7 +311,14 @@ def rule_r7(ctx):
     c12.rule_r3(ctx, rid="C09.R7")
 
 
-RULES = [rule_r1, rule_r2, rule_r3, rule_r4, rule_r5, rule_r6, rule_r7]
+def rule_r8(ctx):
+    """Shared with C12.R1: a worker released by a disconnect re-tests `connected` and raises ClientDisconnected before it
+    appends anything - the route by which a mid-response disconnect reaches the handlers (and the finally-close)."""
+    from . import c12
+    c12.rule_r1(ctx, rid="C09.R8")
+
+
+RULES = [rule_r1, rule_r2, rule_r3, rule_r4, rule_r5, rule_r6, rule_r7, rule_r8]
 
 from ..selftest import M, T, V  # noqa: E402
 
